@@ -553,8 +553,8 @@ class C38(core.Check):
     PARTIAL = None
     RULE = ('schedules over KEY(1), KEY(2), TIMER, PEN, STRIG(0), COM(1): ON/OFF/STOP, ON..GOSUB n/0, occurrences '
             '(in a statement loop or while idle), GOSUB/RETURN/RETURN n, ON ERROR/ERROR/RESUME, END, GOTO, RUN; '
-            'quick: random schedules; thorough: additionally ALL schedules up to length 4 over a 10-letter '
-            'alphabet on two KEY traps after two set-up prefixes; non-trivial = at least one handler entered; '
+            'quick: random schedules; thorough: additionally ALL schedules over a 10-letter alphabet on two KEY '
+            'traps, up to length 4 after the set-up with both traps ON and up to length 3 with both OFF; non-trivial = at least one handler entered; '
             'distinct by hash of (schedule, observations)')
     histogram = None
 
@@ -649,12 +649,13 @@ class C38(core.Check):
             out.append({'acts': acts})
         if self.tier == 'thorough':
             nex = 0
-            for pre in self.PREFIXES:
-                for L in range(1, 5):
+            for pi, pre in enumerate(self.PREFIXES):
+                # both traps OFF at the start: words up to length 3; both ON: up to length 4
+                for L in range(1, 4 if pi == 0 else 5):
                     for word in itertools.product(self.ALPHABET, repeat=L):
                         out.append({'acts': [list(a) for a in pre] + [list(a) for a in word]})
                         nex += 1
-            hist['exhaustive_schedules_len<=4'] = nex
+            hist['exhaustive_schedules'] = nex
         seen = set(core.sha(c) for c in self.corpus())
         uniq = []
         for c in out:
